@@ -150,7 +150,18 @@ def replay_protocol(vc, unit):
     clause = vc["name"].rsplit("/", 1)[-1]
     uname = vc["name"].split("/")[0]
     kind = "udp" if "Udp" in uname else "tcp"
-    if "which" in w:
+    if clause.startswith("C07_C08_fragment_state_cleared"):
+        task = {"op": "func", "module": "contracts.protocol_native", "func": "replay_fragment_cleared",
+                "kwargs": {"kind": kind}}
+    elif clause.startswith("C04_C05_C06_timeout_delay"):
+        task = {"op": "func", "module": "contracts.protocol_native", "func": "replay_timer_delay",
+                "kwargs": {"kind": kind}}
+    elif uname.startswith("binding:"):
+        task = {"op": "func", "module": "contracts.protocol_native", "func": "replay_binding",
+                "kwargs": {"cls": w.get("cls", uname.split(":")[1]), "comm_addr": w.get("comm_addr", 0xf7),
+                           "offset": w.get("offset", 0), "value": w.get("value", 1), "values": w.get("values", b""),
+                           "data": w.get("data", b"")}}
+    elif "which" in w:
         task = {"op": "func", "module": "contracts.protocol_native", "func": "replay_callback",
                 "kwargs": {"kind": kind, "which": w["which"], "retry": w.get("retry", 0), "retries": w.get("retries", 3),
                            "fstate": w.get("fstate", -1), "validator": w.get("validator", "True"), "check": clause}}
@@ -195,15 +206,23 @@ def replay_c15(vc, unit):
     if "state_index" in w:
         task = {"op": "func", "module": "contracts.inverter_native", "func": "replay_runtime",
                 "kwargs": {"family": w["family"], "state": w["state_index"], "script": w.get("script", []),
-                           "check": clause}}
+                           "check": clause, "sensors_first": bool(w.get("sensors_first", False))}}
     elif "method" in w:
         return replay_api(vc, unit)
     else:
         return None
-    out = units.native_batch([task])[0]
-    rec = {"kind": "script", "native_task": task, "native_result": out}
-    if not out["ok"]:
-        return None, rec
-    res = dec(out["result"])
-    rec["native_result"] = res
+    rec = {"kind": "script", "native_task": task}
+    res = None
+    for fill in (0, 1):
+        # values the symbolic path does not tie to the payload (battery_mode != 0) are tried both ways
+        t = dict(task, kwargs=dict(task["kwargs"], fill=fill))
+        out = units.native_batch([t])[0]
+        rec["native_result"] = out
+        if not out["ok"]:
+            return None, rec
+        res = dec(out["result"])
+        rec["native_result"] = res
+        rec["native_task"] = t
+        if res.get("violates"):
+            break
     return bool(res.get("violates")), rec
